@@ -694,3 +694,157 @@ Definition subchain_axes (N dim : nat) : list tr_axis :=
 Definition tr_idx (N dim : nat) : list nat :=
   map (fun i => i + N - dim) (seq 0 dim) ++ map (fun i => i + 1) (seq 0 (N - dim - 1)) ++ [N; 0].
 Definition permute_axes (axes : list tr_axis) (perm : list nat) : list tr_axis := map (fun p => nth p axes (ABond 0)) perm.
+
+(* ================================================================ additions of round 7 ================= *)
+(* ---------------------------------------------------------------- the parafac loop on DATA with weights, normalisation and line search *)
+(* tensorly/decomposition/_cp.py:parafac without mask, iteration `it` on the state (weights, factors):
+     if linesearch and it % 2 == 0: factors_last, weights_last = copies of the current state                 <- snap
+     for mode in modes_list: mttkrp = unfolding_dot_khatri_rao(tensor, (weights, factors), mode); factors[mode] = solve(...)   <- data_sweep
+     line_iter = linesearch and it % 2 == 0 and it > 5
+     if not line_iter: unnorml_rec_error = error_calc(tensor, norm, weights, factors, sparsity, None, mttkrp)
+     else: (new_weights, new_factors) = extrapolation from (weights_last, factors_last) through (weights, factors)           <- fl_jump
+           new_rec_error = error_calc(tensor, norm, new_weights, new_factors, sparsity, None)          (no MTTKRP: explicit residual)
+           if new_rec_error / norm < rec_errors[-1]: state, error = candidate, new_rec_error                                   <- fl_accept
+           else: error = error_calc(tensor, norm, weights, factors, sparsity, None, mttkrp)
+     rec_errors.append(error / norm)
+     callback stop / convergence stop: normalise if asked, break                                                             <- fl_stop
+     if normalize_factors: weights, factors = cp_normalize((weights, factors))                                               <- fl_norm
+   The sweep never changes the weights: they move only through the normalisation and an accepted jump.  Oracles (arbitrary functions):
+   the linear solves, the extrapolation, the acceptance test (it sees the candidate's value and the history), the normalisation and
+   the stop decision (it sees the history including the new value). *)
+Section FullLoop.
+Context {F : Type} (Op : fops F).
+Definition cpstate : Type := (option (list F) * list (tensor F))%type.
+Record floracle := mkFL {
+  fl_solve : nat -> nat -> tensor F -> list (tensor F) -> tensor F;
+  fl_jump : nat -> cpstate -> cpstate -> cpstate;
+  fl_accept : nat -> F * F -> list (F * F) -> bool;
+  fl_norm : cpstate -> cpstate;
+  fl_stop : nat -> list (F * F) -> bool }.
+Variables (Or : floracle) (X : tensor F) (R : nat) (card : option nat) (ms : list nat) (linesearch normalize : bool).
+(* one iteration up to and including the error computation: (state the value belongs to, snapshot, value) *)
+Definition fl_iteration (it : nat) (st snap : cpstate) (errs : list (F * F)) : cpstate * cpstate * (F * F) :=
+  let snap' := if linesearch && Nat.even it then st else snap in
+  let r := data_sweep Op (fl_solve Or it) X R (fst st) ms (snd st) None in
+  let st1 : cpstate := (fst st, fst r) in
+  let e_own := error_calc_model Op X R (fst st1) (snd st1) card None (snd r) in
+  if linesearch && Nat.even it && (5 <? it) then
+    let cand := fl_jump Or it snap' st1 in
+    let e_cand := error_calc_model Op X R (fst cand) (snd cand) card None None in
+    if fl_accept Or it e_cand errs then (cand, snap', e_cand) else (st1, snap', e_own)
+  else (st1, snap', e_own).
+Definition fl_after (st2 : cpstate) : cpstate := if normalize then fl_norm Or st2 else st2.
+Fixpoint fl_loop (n it : nat) (st snap : cpstate) (errs : list (F * F)) : cpstate * list (F * F) :=
+  match n with
+  | 0 => (st, errs)
+  | S n' => let r := fl_iteration it st snap errs in
+            let errs' := errs ++ [snd r] in
+            let st3 := fl_after (fst (fst r)) in
+            if fl_stop Or it errs' then (st3, errs') else fl_loop n' (S it) st3 (snd (fst r)) errs'
+  end.
+(* the states the recorded values belong to (before the end-of-iteration normalisation) and the states at the end of the iterations *)
+Fixpoint fl_states (after : bool) (n it : nat) (st snap : cpstate) (errs : list (F * F)) : list cpstate :=
+  match n with
+  | 0 => []
+  | S n' => let r := fl_iteration it st snap errs in
+            let errs' := errs ++ [snd r] in
+            let st3 := fl_after (fst (fst r)) in
+            (if after then st3 else fst (fst r)) :: (if fl_stop Or it errs' then [] else fl_states after n' (S it) st3 (snd (fst r)) errs')
+  end.
+(* the explicit squared residual (minus the sparse component the model computes itself) and squared norm for a state *)
+Definition fl_true_err (st : cpstate) : F * F :=
+  let L := cp_tensor_entry Op R (fst st) (snd st) in err_explicit Op X L (sparse_of Op X L card None) None.
+End FullLoop.
+Arguments fl_solve {F}. Arguments fl_jump {F}. Arguments fl_accept {F}. Arguments fl_norm {F}. Arguments fl_stop {F}.
+(* the extrapolation of the line search, transcribed:  new_weights = weights_last + (weights - weights_last) * jump;
+   new_factors[ii] = factors_last[ii] + (factors[ii] - factors_last[ii]) * jump   (jump = iteration ** (1 / acc_pow): handed in) *)
+Fixpoint zipw {A} (f : A -> A -> A) (a b : list A) : list A :=
+  match a, b with x :: a', y :: b' => f x y :: zipw f a' b' | _, _ => [] end.
+Definition ls_extrapolate {F} (Op : fops F) (jump : F) (snap st : @cpstate F) : @cpstate F :=
+  let ex := fun a b => fadd Op a (fmul Op (fsub Op b a) jump) in
+  (match fst snap, fst st with Some a, Some b => Some (zipw ex a b) | _, _ => fst st end,
+   zipw (fun A B => mk (shape B) (zipw ex (data A) (data B))) (snd snap) (snd st)).
+(* blocks -> (weights, factors) as data: the inverse of blocks_of on the rows / columns that exist *)
+Definition data_of_blocks {F} (s : list nat) (R : nat) (b : blocks (@blk F)) : @cpstate F :=
+  (Some (map (fun r => b (length s) 0 r) (seq 0 R)),
+   map (fun k => tabulate [nth k s 0; R] (fun ir => b k (nth 0 ir 0) (nth 1 ir 0))) (seq 0 (length s))).
+
+(* ---------------------------------------------------------------- constrained_parafac: one iteration on DATA *)
+(* tensorly/decomposition/_constrained_cp.py, iteration:
+     for mode in modes_list: mttkrp = unfolding_dot_khatri_rao(tensor, (None, factors), mode); factors[mode], ... = admm(mttkrp, ...)
+     factors_norm = cp_norm((weights, factors)); iprod = sum(sum(mttkrp * factors[-1], axis=0) * weights)
+     rec_error = sqrt(abs(norm_tensor**2 + factors_norm**2 - 2*iprod)) / norm_tensor
+   The MTTKRP carries NO weights; the weights multiply the column sums instead.  admm is an oracle (any function of the mode, the
+   MTTKRP and the current factors).  The last mode is never fixed, so the modes list is not empty in the code; the model answers the
+   explicit residual for an empty list. *)
+Section ConstrainedIteration.
+Context {F : Type} (Op : fops F).
+Definition err_shortcut_cw_with (X : tensor F) (R : nat) (w : option (list F)) (fs : list (tensor F)) (M : tensor F) (n : nat) : F * F :=
+  let s := shape X in
+  (err2_fast_with Op s (tfun Op X) R (wfun Op w) (wfun Op w) (colsT Op fs) (fun i r => get (f0 Op) M [i; r]) n, normsq Op s (tfun Op X)).
+Definition constrained_iteration_error (solve : nat -> tensor F -> list (tensor F) -> tensor F) (X : tensor F) (R : nat) (w : option (list F))
+           (ms : list nat) (fs : list (tensor F)) : F * F :=
+  let r := data_sweep Op solve X R None ms fs None in
+  match snd r with
+  | Some Mt => err_shortcut_cw_with X R w (fst r) Mt (length (shape X) - 1)
+  | None => err_cp_true Op X R w (fst r) None None
+  end.
+(* non_negative_parafac_hals without normalisation inside the sweep (tensorly/decomposition/_nn_cp.py): the MTTKRP carries the weights and is
+   paired with factors[modes[-1]] - the last UPDATED mode, which need not be the last mode of the tensor (fixed_modes may contain it);
+   with every mode fixed the code returns before the loop (the model answers the explicit residual) *)
+Definition hals_iteration_error (solve : nat -> tensor F -> list (tensor F) -> tensor F) (X : tensor F) (R : nat) (w : option (list F))
+           (ms : list nat) (fs : list (tensor F)) : F * F :=
+  let r := data_sweep Op solve X R w ms fs None in
+  match snd r with
+  | Some Mt => err_shortcut_with Op X R w (fst r) Mt (last ms 0)
+  | None => err_cp_true Op X R w (fst r) None None
+  end.
+Variables (solve : nat -> nat -> tensor F -> list (tensor F) -> tensor F) (stop : nat -> list (F * F) -> bool)
+          (X : tensor F) (R : nat) (w : option (list F)) (ms : list nat).
+(* the loop: one value per iteration, recorded before the convergence tests may stop the run *)
+Fixpoint constrained_data_loop (n it : nat) (fs : list (tensor F)) (errs : list (F * F)) : list (tensor F) * list (F * F) :=
+  match n with
+  | 0 => (fs, errs)
+  | S n' => let fs' := fst (data_sweep Op (solve it) X R None ms fs None) in
+            let errs' := errs ++ [constrained_iteration_error (solve it) X R w ms fs] in
+            if stop it errs' then (fs', errs') else constrained_data_loop n' (S it) fs' errs'
+  end.
+Fixpoint constrained_data_states (n it : nat) (fs : list (tensor F)) (errs : list (F * F)) : list (list (tensor F)) :=
+  match n with
+  | 0 => []
+  | S n' => let fs' := fst (data_sweep Op (solve it) X R None ms fs None) in
+            let errs' := errs ++ [constrained_iteration_error (solve it) X R w ms fs] in
+            fs' :: (if stop it errs' then [] else constrained_data_states n' (S it) fs' errs')
+  end.
+End ConstrainedIteration.
+
+(* ---------------------------------------------------------------- tensor_ring_als: the axis bookkeeping, semantically (round 7) *)
+(* A checker over the PIECES of the bookkeeping (whatever their syntactic form in the source): the cores tensordot-ed into the sub-chain
+   (`chain`, left to right, axes=1: the right bond of one core is contracted with the left bond of the next, so consecutive cores must be
+   neighbours on the ring), the permutation handed to transpose, the row modes of matricize(tensor, row_modes, [dim]), the two rank
+   indices of reshape(subchain, (-1, rank[a] * rank[b])), the rank indices of reshape(sol, (rank[a'], rank[b'], shape[dim])) and the
+   permutation that turns the reshaped solution into core `dim`.  Bonds are labelled modulo N (rank[N] is rank[0] on a ring); core c has
+   the axes [bond c; mode c; bond c+1].  The bookkeeping is right when the transposed sub-chain has the axes [modes in the row order of
+   the unfolded tensor] ++ [the two bonds in the order the solution is reshaped with] and the reshaped, transposed solution has the axes
+   of core dim. *)
+Definition bond (N k : nat) : tr_axis := ABond (k mod N).
+Definition chain_axes (N : nat) (chain : list nat) : list tr_axis :=
+  match chain with [] => [] | c0 :: _ => bond N c0 :: map AMode chain ++ [bond N (last chain 0 + 1)] end.
+Fixpoint adjacent (N : nat) (chain : list nat) : bool :=
+  match chain with
+  | c :: tl => match tl with c' :: _ => Nat.eqb c' ((c + 1) mod N) && adjacent N tl | [] => true end
+  | [] => true
+  end.
+Definition tr_axis_eqb (a b : tr_axis) : bool :=
+  match a, b with AMode x, AMode y => Nat.eqb x y | ABond x, ABond y => Nat.eqb x y | _, _ => false end.
+Fixpoint axes_eqb (a b : list tr_axis) : bool :=
+  match a, b with [], [] => true | x :: a', y :: b' => tr_axis_eqb x y && axes_eqb a' b' | _, _ => false end.
+Definition tr_bookkeeping_ok (N dim : nat) (chain row_modes tr_perm cols sol_rows sol_perm : list nat) : bool :=
+  adjacent N chain && forallb (fun c => c <? N) chain && forallb (fun p => p <? length chain + 2) tr_perm && forallb (fun p => p <? 3) sol_perm &&
+  axes_eqb (permute_axes (chain_axes N chain) tr_perm) (map AMode row_modes ++ map (bond N) cols) &&
+  axes_eqb (permute_axes (map (bond N) sol_rows ++ [AMode dim]) sol_perm) [bond N dim; AMode dim; bond N (dim + 1)] &&
+  axes_eqb (map (bond N) cols) (map (bond N) sol_rows).
+(* the pieces as the model has them (tensorly/decomposition/_tr_als.py at the time of writing) *)
+Definition tr_chain (N dim : nat) : list nat := map (fun j => (dim + j) mod N) (seq 1 (N - 1)).
+Definition tr_bookkeeping_model_ok (N dim : nat) : bool :=
+  tr_bookkeeping_ok N dim (tr_chain N dim) (remove_nth dim (seq 0 N)) (tr_idx N dim) [dim; dim + 1] [dim; dim + 1] [0; 2; 1].
